@@ -20,7 +20,7 @@ META = {
     "level": "model_checking",
     "technique": "TLA+ query-meaning spec SQLSem.tla (ResultOK = sortedness + slice + bag containment, ties open); TLC trace validation of every recorded engine result; TLC enumeration MC_Order.tla (tables x key lists x LIMIT/OFFSET) checking the acceptance test itself and emitting cases executed on the engine",
     "text": "For generated ORDER BY key lists (1-3 keys, mixed ASC/DESC, plain columns and expressions, INT and VARCHAR keys under utf8mb4_0900_bin and utf8mb4_0900_ai_ci over [0-9A-Za-z ], NULLs, duplicates) with LIMIT in {0,1,..,100} and OFFSET up to beyond the end, over single tables, DISTINCT, joins (incl. self-joins), and GROUP BY, on tables with primary keys / secondary indexes that do or do not provide the order, TLC decides for every executed query whether the engine's row sequence is sorted, has the prescribed length, carries at position i the sort key of position offset+i of the sorted full result and is contained in the full result as a bag. The plan class of every case (Sort, TopN heap, index order forward / reverse) is recorded and reported; TLC additionally enumerates all tables of <= 4 rows over {NULL,0,1}^2 x all key lists of 1-2 keys x all (limit, offset) <= 5 (sampled in the quick tier, complete in the thorough tier for the specification laws) and the emitted cases are executed on the engine over six index layouts.",
-    "note": "Interpreted fragment only (int32-safe integers, strings over [0-9A-Za-z ], sort keys always in the select list so the result row carries them). OFFSET without LIMIT is not generated (LIMIT 18446744073709551615 panics: C10's subject). Two open findings (DISTINCT + ORDER BY <ordinal>; sort elimination through the index of another instance of a self-joined table) are replayed as witnesses on every run; the generator uses ORDER BY <alias> in those shapes most of the time. Trusted: TLC, the SQL renderer and value normaliser in harness/lib (representation only).",
+    "note": "Interpreted fragment only (int32-safe integers, strings over [0-9A-Za-z ], sort keys always in the select list so the result row carries them). OFFSET without LIMIT is not generated (LIMIT 18446744073709551615 panics: C10's subject). Three open findings (DISTINCT + ORDER BY <ordinal>; sort elimination through the index of another instance of a self-joined table; sort elimination over an outer merge join for a key of the NULL-supplying side) are replayed as witnesses on every run; the generator uses ORDER BY <alias> in those shapes most of the time. Trusted: TLC, the SQL renderer and value normaliser in harness/lib (representation only).",
     "design_ref": "§3.1, §7 C04",
 }
 
@@ -171,8 +171,9 @@ def check(tier):
         lib.log("[%s] validated %d events, %d mismatches, %.1fs" % (PID, nlines, len(mms), time.time() - t0))
         evs = sc.load_events(allp)
         caught = {evs[m["line"]]["id"] for m in mms if 8000000 <= evs[m["line"]]["id"] < 9000000}
+        problem = None          # vacuity findings end the run as inconclusive unless a violation was reproduced
         if not probes or caught != {8000001, 8000002}:
-            raise lib.Inconclusive("sensitivity probe: the validator accepted a corrupted result (caught %s of %d probe lines)" % (sorted(caught), len(probes)))
+            problem = "sensitivity probe: the validator accepted a corrupted result (caught %s of %d probe lines)" % (sorted(caught), len(probes))
         mms = [m for m in mms if not 8000000 <= evs[m["line"]]["id"] < 9000000]
         wmm = [m for m in mms if evs[m["line"]]["id"] >= 9000000]
         mmm = [m for m in mms if 1000000 <= evs[m["line"]]["id"] < 9000000]
@@ -207,8 +208,12 @@ def check(tier):
         nontrivial = rep["nontrivial"] + mrep["nontrivial"]
         ncases = rep["cases"] + mrep["cases"]
         if missing or nontrivial < ncases * 0.15:
-            raise lib.Inconclusive("vacuous run: plan classes %s (missing %s), %d non-trivial of %d cases"
-                                   % (pc, missing, nontrivial, ncases))
+            problem = problem or "vacuous run: plan classes %s (missing %s), %d non-trivial of %d cases" % (pc, missing, nontrivial, ncases)
+        for rp in (rep, mrep):
+            if rp["extra"].get("aborted"):
+                problem = problem or "the driver stopped early: " + rp["extra"]["aborted"]
+        if problem and not v.violations:
+            raise lib.Inconclusive(problem)
         rc = v.finish()
         cov = {
             "states": states + (laws.distinct if laws else 0), "transitions": states + (laws.generated if laws else 0),
